@@ -82,6 +82,10 @@ SLOTS = [
     ("push-arg", "r = { PUSH(", ") }"),
     ("pushlit-arg", "r = { PUSH_LITERAL(", ") }"),
     ("choice-lead", "r = { ", ' "a" | "b" }'),
+    ("choice-lead-nested", "r = { (", ' "a" | "b") }'),
+    ("choice-lead-push", "r = { PUSH(", ' "a" | "b") }'),
+    ("skip-idiom-ref", "a = { (!", ' ~ ANY)* }\nb = { "x" }'),
+    ("skip-idiom-choice", 'a = { (!("x" | ', ') ~ ANY)* }\nb = { "y" }'),
 ]
 
 SMALL = [
@@ -285,7 +289,7 @@ def texts_for(prop: str, tier: str, seed: int):
                 out.append((f"trunc{si}@{i}", [t]))
                 if tier == "thorough" or i % 3 == 0:
                     out.append((f"trunc{si}@{i}+1", [t, 1]))
-        for t in ("", " ", "\n", "// c", "/* c */", "/* c", "//! d", "/// d", "r", "r =", "r = {", "r = { }", "r = { undefined }", "r = { r }", 'r = { "a" }\nr = { "b" }', "ANY = { \"a\" }", "r = { PEEK[9..] }", "r = { a{0} }", "r = { a{3,1} }", "r = { \"\"* }", "WHITESPACE = { \"\" }\nr = { \"a\" ~ \"b\" }"):
+        for t in ("", " ", "\n", "// c", "/* c */", "/* c", "//! d", "/// d", "r", "r =", "r = {", "r = { }", "r = { undefined }", "r = { r }", 'r = { "a" }\nr = { "b" }', "ANY = { \"a\" }", "r = { PEEK[9..] }", "r = { a{0} }", "r = { a{3,1} }", "r = { \"\"* }", "a = { (!b ~ ANY)* }", "a = { (!b ~ ANY)* }\nb = { b }", "a = { 'z'..'a' | \"x\" }", "a = { 'z'..'a' }", "a = { (!(\"x\" | c) ~ ANY)* }\nc = _{ c | \"y\" }", "WHITESPACE = { \"\" }\nr = { \"a\" ~ \"b\" }"):
             out.append((f"special/{t!r}", [t]))
     return out
 
